@@ -263,6 +263,15 @@ func buildCorpus(caseFiles []string, repo string, tier string, rng *rand.Rand) (
 			items = append(items, item{Name: fmt.Sprintf("png:extra-anc%d+big", n), Fmt: "png", Data: d, Tail: 1 << 20, L: l, HasICC: b.HasICC, Well: true})
 		}
 	}
+	// PNG: the 8-byte header of the iCCP chunk (and of the IDAT chunk after it) lying across the offsets
+	// 4096, 8192 and 16384: a reader that works on a head of the file meets the end of its head there
+	for _, bnd := range []int{4096, 8192, 16384} {
+		for _, k := range []int{0, 2, 4, 7} {
+			c := concrete.Case{Fmt: "png", File: mustFile(fmt.Sprintf(`[{"t":"IHDR","w":9,"h":8,"d":8,"ct":2,"il":0},{"t":"anc","size":"pad:%d"},{"t":"iCCP","name":4,"method":0,"z":"ok6","pid":2,"cross":false},{"t":"IDAT"},{"t":"IEND"}]`, bnd-45-k))}
+			b := concrete.Build(c, 0)
+			items = append(items, item{Name: fmt.Sprintf("png:extra-iccp-header-%d-before-%d", k, bnd), Fmt: "png", Data: b.Data, L: b.Layout, HasICC: b.HasICC, Well: true})
+		}
+	}
 	{ // inputs whose last structure has no payload at all, at the very end of the stream
 		sof := gen.SOF(0xC0, 8, 21, 34, gen.StdComps(3, 0x22))
 		a, _ := gen.BuildJPEG([]gen.JSeg{gen.SOI(), gen.JFIF(), sof, gen.COM(nil)})
